@@ -4,8 +4,13 @@
    tokens (utils/token_binder: bind_token / unbind_token / is_token_bound; its bucket layout is
    C20's subject and is not modelled).
 
-   Compliance modules are external contracts: which of them refuse is an INPUT of every call
-   ([cc_deny]); every call a module receives is logged (an observation).
+   Compliance modules are external contracts: which of them refuse ([cc_deny]: the module answers
+   `false`) and which of them FAIL ([cc_fail]: the module cannot be invoked or traps instead of
+   answering - it panics, raises a contract error, is not a deployed contract, lacks the function,
+   returns something that is not a bool) is an INPUT of every call; every call a module receives
+   is logged (an observation).  A failing module makes the whole hook call fail: the library calls
+   `client.can_transfer(..)` / `client.on_transfer(..)` (not the `try_` forms), so the trap
+   propagates - a module that does not answer is never counted as an approval.
    The wrappers of the harness contract add [operator.require_auth()] in front of
    add_module_to / remove_module_from / bind_token / unbind_token (Compliance / TokenBinder trait
    signatures carry `operator`); the hook functions are the library's, unwrapped. *)
@@ -79,9 +84,15 @@ Fixpoint notify_all (ms : list addr) (e : mev) (s : cstate) : cstate :=
   | [] => s
   | m :: r => notify_all r e (clog m e s)
   end.
-Definition hook_notify (auths : list addr) (h : hook) (e : mev) (tok : addr) (s : cstate) : res cstate :=
+(* ... as the code runs it: `client.on_xxx(..)` on a module that fails traps the whole call *)
+Fixpoint notify_all_f (fail : list addr) (ms : list addr) (e : mev) (s : cstate) : res cstate :=
+  match ms with
+  | [] => Ok s
+  | m :: r => if mem m fail then Fail else notify_all_f fail r e (clog m e s)
+  end.
+Definition hook_notify (fail : list addr) (auths : list addr) (h : hook) (e : mev) (tok : addr) (s : cstate) : res cstate :=
   do _ <- require_auth_from_bound_token auths tok s;
-  Ok (notify_all (mods s h) e s).
+  notify_all_f fail (mods s h) e s.
 
 (* the check hooks: modules are asked in order; the first refusal ends the loop with false *)
 Fixpoint ask_all (deny : list addr) (ms : list addr) (e : mev) (s : cstate) : bool * cstate :=
@@ -89,6 +100,24 @@ Fixpoint ask_all (deny : list addr) (ms : list addr) (e : mev) (s : cstate) : bo
   | [] => (true, s)
   | m :: r => let s1 := clog m e s in if mem m deny then (false, s1) else ask_all deny r e s1
   end.
+(* ... as the code runs it: `client.can_xxx(..)` on a module that fails traps the whole call (the
+   loop never gets to see a verdict it could count as an approval) *)
+Fixpoint ask_all_f (fail deny : list addr) (ms : list addr) (e : mev) (s : cstate) : res (bool * cstate) :=
+  match ms with
+  | [] => Ok (true, s)
+  | m :: r =>
+      if mem m fail then Fail
+      else let s1 := clog m e s in if mem m deny then Ok (false, s1) else ask_all_f fail deny r e s1
+  end.
+
+(* the modules that get asked by a check hook: up to and including the first one that refuses *)
+Fixpoint asked (deny : list addr) (ms : list addr) : list addr :=
+  match ms with
+  | [] => []
+  | m :: r => if mem m deny then [m] else m :: asked deny r
+  end.
+(* is one of the modules [ms] a failing one *)
+Definition any_fail (fail : list addr) (ms : list addr) : bool := existsb (fun m => mem m fail) ms.
 
 Inductive cop :=
 | CAddModule (h : hook) (m : addr) (operator : addr)
@@ -103,8 +132,11 @@ Inductive cop :=
 | CAdvance (n : Z).                                (* the ledger advances by n; the contract stores nothing time-dependent *)
 
 (* [cc_auths]: the addresses whose authorisation is attached to the call, including the calling
-   contract itself when the call is made by a contract; [cc_deny]: the modules that refuse *)
-Record ccall := mkCC { cc_op : cop; cc_auths : list addr; cc_deny : list addr }.
+   contract itself when the call is made by a contract; [cc_deny]: the modules that refuse (answer
+   false); [cc_fail]: the modules that fail (trap / cannot be invoked) when called *)
+Record ccall := mkCCF { cc_op : cop; cc_auths : list addr; cc_deny : list addr; cc_fail : list addr }.
+(* a call during which no module fails *)
+Definition mkCC (o : cop) (auths deny : list addr) : ccall := mkCCF o auths deny [].
 
 Definition cret := option bool.
 Definition cunit (r : res cstate) : res (cret * cstate) := do s <- r; Ok (None, s).
@@ -116,13 +148,15 @@ Definition cexec (cf : ccfg) (c : ccall) (s : cstate) : res (cret * cstate) :=
   | CRemoveModule h m opr => cunit (do _ <- guard (has_auth au opr); remove_module_from h m s)
   | CBind t opr => cunit (do _ <- guard (has_auth au opr); bind_token t s)
   | CUnbind t opr => cunit (do _ <- guard (has_auth au opr); unbind_token t s)
-  | CTransferred f t a tok => cunit (hook_notify au HTransferred (MOnTransfer f t a tok) tok s)
-  | CCreated t a tok => cunit (hook_notify au HCreated (MOnCreated t a tok) tok s)
-  | CDestroyed f a tok => cunit (hook_notify au HDestroyed (MOnDestroyed f a tok) tok s)
+  | CTransferred f t a tok => cunit (hook_notify (cc_fail c) au HTransferred (MOnTransfer f t a tok) tok s)
+  | CCreated t a tok => cunit (hook_notify (cc_fail c) au HCreated (MOnCreated t a tok) tok s)
+  | CDestroyed f a tok => cunit (hook_notify (cc_fail c) au HDestroyed (MOnDestroyed f a tok) tok s)
   | CCanTransfer f t a tok =>
-      let '(b, s') := ask_all (cc_deny c) (mods s HCanTransfer) (MCanTransfer f t a tok) s in Ok (Some b, s')
+      do bs <- ask_all_f (cc_fail c) (cc_deny c) (mods s HCanTransfer) (MCanTransfer f t a tok) s;
+      Ok (Some (fst bs), snd bs)
   | CCanCreate t a tok =>
-      let '(b, s') := ask_all (cc_deny c) (mods s HCanCreate) (MCanCreate t a tok) s in Ok (Some b, s')
+      do bs <- ask_all_f (cc_fail c) (cc_deny c) (mods s HCanCreate) (MCanCreate t a tok) s;
+      Ok (Some (fst bs), snd bs)
   | CAdvance _ => Ok (None, s)
   end.
 
